@@ -8,6 +8,7 @@ import (
 	"sort"
 	"strings"
 
+	"github.com/Syuparn/pangaea/ast"
 	"github.com/Syuparn/pangaea/object"
 	seam "github.com/Syuparn/pangaea/verifseam"
 
@@ -168,6 +169,9 @@ func (s *C06Stats) Merge(raw json.RawMessage) error {
 }
 
 type c06Check struct {
+	// evalHook, when set, evaluates a parsed line instead of it.RunIn (used by the
+	// scheduler workloads, which must not share harness state between tasks)
+	evalHook func(prog ast.Node, c *harness.Callee, env *object.Env) harness.Result
 	it       *harness.Interp
 	builtins map[object.PanObject]string
 	propsOf  map[object.PanObject][]string // per builtin prototype: own property names
@@ -196,6 +200,12 @@ func (c *c06Check) Init(tier string) {
 		return
 	}
 	c.it = harness.NewInterp()
+	c.initTables(c.it)
+}
+
+// initTables discovers the built-in prototypes and their property names by reflection.
+func (c *c06Check) initTables(it *harness.Interp) {
+	c.it = it
 	c.builtins = map[object.PanObject]string{}
 	c.propsOf = map[object.PanObject][]string{}
 	hs := make([]uint64, 0, len(c.it.Global.Store))
@@ -411,6 +421,9 @@ func (c *c06Check) runHist(seed, run uint64, t *tape.Tape, s *C06Stats, lines *[
 		prog, err := harness.Parse(src)
 		if err != nil {
 			return harness.Result{}, false
+		}
+		if c.evalHook != nil {
+			return c.evalHook(prog, &harness.Callee{Plan: plan, Limit: 5000}, env), true
 		}
 		seam.SetFuel(200000)
 		r := c.it.RunIn(prog, &harness.Callee{Plan: plan, Limit: 5000}, env)
